@@ -225,7 +225,6 @@ for f1 in (0, 1, 2):
 # =====================================================================================================
 # C09  per-module source registry
 # =====================================================================================================
-PROPS["C09"] = {"level": "proof", "level_text": "TODO", "level_note": "TODO", "not_decided": [], "explanation": "TODO"}
 for k in ("fd", "tmr", "sgn", "pid", "task", "thresh", "path"):
     U("srccmp." + k, src="units/srccmp.c", harness="h_cmp_" + k, plain=True, logctx="CORE", props=["C09"], native=False,
       contract_files=[], timeout=600, min_obligations=4, cbmc_extra=["--float-overflow-check", "--nan-check"] if False else [])
@@ -239,11 +238,9 @@ ABS = ["contracts/abs.contracts.h"]
 U("ctx.push_evt", src="units/ctx_unit.c", harness="h_push_evt", enforce="push_evt",
   replace=["m_mem_unref", "m_queue_enqueue", "m_queue_len", "m_queue_new", "call_pubsub_cb"], logctx="CORE",
   props=["C13", "C18", "C03", "C04"], contract_files=ABS + ["contracts/ctx.contracts.h"], native=False, timeout=600, min_obligations=30)
-PROPS["C13"] = {"level": "proof", "level_text": "TODO", "level_note": "TODO", "not_decided": [], "explanation": "TODO"}
 U("ps.call_pubsub_cb", src="units/ps_unit.c", harness="h_call_pubsub_cb", enforce="call_pubsub_cb",
   replace=["m_mem_ref", "m_mem_unref", "m_queue_len", "m_queue_free", "m_stack_peek", "fs_notify", "fetch_ms", "v_on_evt", "v_become_evt"], logctx="CORE",
   props=["C17", "C04", "C15", "C02"], contract_files=ABS + ["contracts/cb.contracts.h", "contracts/ps.contracts.h"], native=False, timeout=600, min_obligations=30)
-PROPS["C17"] = {"level": "proof", "level_text": "TODO", "level_note": "TODO", "not_decided": [], "explanation": "TODO"}
 EVTS = ABS + ["contracts/evts.contracts.h"]
 U("evts.become", src="units/evts_unit.c", harness="h_become", enforce="m_mod_become", replace=["m_ctx", "m_mod_is", "fetch_ms", "m_stack_push", "m_stack_peek", "m_stack_len"], logctx="CORE",
   props=["C17", "C18", "C14", "C01", "C04"], contract_files=EVTS, native=False, timeout=600, min_obligations=30)
@@ -253,8 +250,6 @@ U("evts.stash", src="units/evts_unit.c", harness="h_stash", enforce="m_mod_stash
   props=["C16", "C18", "C14", "C04"], contract_files=EVTS, native=False, timeout=600, min_obligations=30)
 U("evts.set_batch_size", src="units/evts_unit.c", harness="h_set_batch_size", enforce="m_mod_set_batch_size", replace=["m_ctx", "m_mod_is", "fetch_ms"], logctx="CORE",
   props=["C13", "C18", "C14", "C04"], contract_files=EVTS, native=False, timeout=600, min_obligations=30)
-PROPS["C16"] = {"level": "proof", "level_text": "TODO", "level_note": "TODO", "not_decided": [], "explanation": "TODO"}
-PROPS["C18"] = {"level": "proof", "level_text": "TODO", "level_note": "TODO", "not_decided": [], "explanation": "TODO"}
 _UNSTASH_REPL = ["m_ctx", "m_mod_is", "fetch_ms", "m_mem_ref", "m_queue_enqueue", "m_queue_new", "m_queue_len", "m_queue_itr_new", "m_queue_itr_next",
                  "m_queue_itr_get_data", "m_queue_itr_remove", "call_pubsub_cb"]
 # (a loop-contract version of this unit exists behind -DV_UNSTASH_LOOPCONTRACT; CBMC's symbolic execution does not finish on it
@@ -270,8 +265,6 @@ U("mod.stop", src="units/mod_unit.c", harness="h_stop", enforce="stop",
 U("mod.start", src="units/mod_unit.c", harness="h_start", enforce="start",
   replace=["init_pubsub_fd", "manage_srcs", "optional_hook", "tell_system_pubsub_msg", "stop"], logctx="CORE",
   props=["C01", "C19", "C03", "C04"], contract_files=MODC, native=False, timeout=300, min_obligations=30)
-PROPS["C01"] = {"level": "proof", "level_text": "TODO", "level_note": "TODO", "not_decided": [], "explanation": "TODO"}
-PROPS["C19"] = {"level": "proof", "level_text": "TODO", "level_note": "TODO", "not_decided": [], "explanation": "TODO"}
 U("mod.optional_hook", src="units/mod_unit.c", harness="h_optional_hook", enforce="optional_hook",
   replace=["m_mem_ref", "m_mem_unref", "m_mod_is", "v_on_start", "v_on_stop", "v_on_eval"], logctx="CORE",
   props=["C01", "C15", "C04"], contract_files=MODC, native=False, timeout=300, min_obligations=30)
@@ -284,22 +277,15 @@ U("mod.evaluate", src="units/mod_unit.c", harness="h_evaluate_module", enforce="
 for _h, _fn, _callee in (("m_start", "m_mod_start", "start"), ("m_pause", "m_mod_pause", "stop"), ("m_resume", "m_mod_resume", "start"), ("m_stop", "m_mod_stop", "stop")):
     U("mod." + _h, src="units/mod_unit.c", harness="h_" + _h, enforce=_fn, replace=["m_ctx", "m_mod_is", "fetch_ms", _callee, "m_list_itr_new"], logctx="CORE",
       props=["C01", "C18", "C14", "C07", "C04"], contract_files=MODC, native=False, timeout=300, min_obligations=30, enforce_rec=True)
-PROPS["C14"] = {"level": "proof", "level_text": "TODO", "level_note": "TODO", "not_decided": [], "explanation": "TODO"}
-PROPS["C07"] = {"level": "proof", "level_text": "TODO", "level_note": "TODO", "not_decided": [], "explanation": "TODO"}
-PROPS["C15"] = {"level": "proof", "level_text": "TODO", "level_note": "TODO", "not_decided": [], "explanation": "TODO"}
 _RECV_REPL = ["fetch_ms", "poll_wait", "poll_recv", "new_evt", "v_process", "push_evt", "m_mem_unref", "m_map_iterate", "m_mod_is"]
 U("ctx.recv_events", src="units/ctx_unit.c", harness="h_recv_events", enforce="recv_events", loop_contracts=True, replace=_RECV_REPL, logctx="CORE",
   defines=["V_RECV_UNIT", "V_RECV_LOOPCONTRACT", "V_NFDS_MAX=1000000"], props=["C03", "C01", "C04"], contract_files=ABS + ["contracts/recv.contracts.h"],
   native=False, timeout=300, min_obligations=40, must_have=["invariant after step"])
-PROPS["C03"] = {"level": "proof", "level_text": "TODO", "level_note": "TODO", "not_decided": [], "explanation": "TODO"}
 PSC = ABS + ["contracts/cb.contracts.h", "contracts/ps.contracts.h"]
 U("ps.send_two_real", src="units/ps_real.c", harness="h_send_two_real", plain=True, logctx="CORE",
   props=["C02", "C04"], contract_files=[], native=True, timeout=300, min_obligations=20, unwind=8)
 U("ps.tell_if_real", src="units/ps_real.c", harness="h_tell_if_real", plain=True, logctx="CORE",
   props=["C02", "C08", "C04"], contract_files=[], native=True, timeout=300, min_obligations=20, unwind=8)
-PROPS["C02"] = {"level": "proof", "level_text": "TODO", "level_note": "TODO", "not_decided": [], "explanation": "TODO"}
-PROPS["C08"] = {"level": "proof", "level_text": "TODO", "level_note": "TODO", "not_decided": [], "explanation": "TODO"}
-PROPS["C04"] = {"level": "proof", "level_text": "TODO", "level_note": "TODO", "not_decided": [], "explanation": "TODO"}
 U("ps.flush", src="units/ps_unit.c", harness="h_flush", enforce="flush_pubsub_msgs", loop_contracts=True, defines=["V_FLUSH_UNIT"],
   replace=["m_queue_new", "v_read", "m_mod_is", "new_evt", "m_queue_enqueue", "m_mem_unref", "call_pubsub_cb", "fs_ctx_stopped"], logctx="CORE",
   props=["C02", "C08", "C04"], contract_files=PSC, native=False, timeout=300, min_obligations=30, must_have=["invariant after step"])
@@ -315,7 +301,6 @@ U("ctx.register", src="units/ctx_unit.c", harness="h_ctx_register", enforce="m_c
 U("mod.reset_module", src="units/mod_unit.c", harness="h_reset_module", enforce="reset_module", defines=["V_RESET_UNIT"],
   replace=["v_close", "m_map_clear", "m_stack_clear", "m_queue_clear", "m_list_clear"], logctx="CORE",
   props=["C20", "C13", "C16", "C17", "C18", "C09", "C04"], contract_files=ABS + ["contracts/cb.contracts.h", "contracts/fd.contracts.h"], native=False, timeout=300, min_obligations=20)
-PROPS["C20"] = {"level": "proof", "level_text": "TODO", "level_note": "TODO", "not_decided": [], "explanation": "TODO"}
 POLLC = ABS + ["contracts/fd.contracts.h", "contracts/poll.contracts.h"]
 U("poll.set_new_evt", src="units/poll_unit.c", harness="h_poll_set_new_evt", enforce="poll_set_new_evt", defines=["V_POLL_UNIT"],
   replace=["v_epoll_ctl", "v_close", "v_timerfd_create", "v_timerfd_settime", "v_signalfd", "v_sigprocmask", "v_inotify_init1", "v_inotify_add_watch", "v_eventfd"], logctx="CORE",
@@ -332,7 +317,6 @@ U("thpool.length", src="units/thpool_unit.c", harness="h_pool_length", enforce="
 U("thpool.worker", src="units/thpool_unit.c", harness="h_pool_worker", enforce=None, defines=["V_POOL_WORKER"], logctx="THPOOL", loop_contracts=True,
   replace=["v_mutex_lock", "v_mutex_unlock", "v_cond_wait", "m_queue_len", "m_queue_dequeue", "v_task"],
   props=["C06", "C04"], contract_files=THP, native=False, timeout=300, min_obligations=20, must_have=["invariant after step"])
-PROPS["C06"] = {"level": "proof", "level_text": "TODO", "level_note": "TODO", "not_decided": [], "explanation": "TODO"}
 U("thpool.wait_pool", src="units/thpool_unit.c", harness="h_wait_pool", enforce="wait_pool", defines=["V_POOL_WAIT"], logctx="THPOOL", loop_contracts=True,
   replace=["v_mutex_lock", "v_mutex_unlock", "v_cond_broadcast", "m_list_itr_new", "m_list_itr_next", "m_list_itr_get_data", "v_thread_join"],
   props=["C06", "C04"], contract_files=THP, native=False, timeout=200, min_obligations=20, must_have=["invariant after step"])
@@ -343,3 +327,130 @@ for _h, _n, _props in (("mod", 24, ["C01", "C14", "C18", "C07", "C15"]), ("state
         U("guards.%s#%d" % (_h, _w), src="units/guards.c", harness="h_guard_" + _h, plain=True, assert_false_bodies="(?!v_|__CPROVER|malloc|calloc|free|memcpy|memset|memcmp).*", logctx="CORE",
           defines=["V_WHICH=%d" % _w], props=_props + ["C04"], contract_files=[], native=False, timeout=200, min_obligations=20, unwind=3,
           unwindset={"v_strlen.0": 24, "v_strncmp.0": 12, "v_base_init.0": 7, "m_mod_register.0": 10})
+U("c14.static_inventory", script="lib/c14_inventory.py", tag="C14.no-unsynchronised-process-wide-mutable-state", src="lib/c14_inventory.py", harness="-", logctx="CORE",
+  props=["C14"], contract_files=[], native=False, timeout=120, min_obligations=5)
+
+
+# =====================================================================================================
+# property texts for the core properties (what is claimed, at which level, what is not decided)
+# =====================================================================================================
+_CORE_NOTE = ("Trusted: CBMC 6.11 and its DFCC contract instrumentation; contracts of callees outside the function under proof (containers, reference counting, "
+              "poll plugin, other core files) are ghost-counter abstractions in contracts/abs.contracts.h -- each core function is checked against its callees' CONTRACTS, "
+              "and each such callee contract is itself enforced in its own unit where listed; user callbacks are contracts too (assume-guarantee: a callback may use the "
+              "public API on its module, it changes its own module's state only by deregistering it). Allocation failure is not modelled in the core units.")
+
+
+def _P(pid, level, text, note=_CORE_NOTE, not_decided=(), explanation="", design_ref=None):
+    PROPS[pid] = {"level": level, "level_text": text, "level_note": note, "not_decided": list(not_decided),
+                  "explanation": explanation or ("contract-based deductive verification with CBMC code contracts on the real sources; see coverage.units for the functions under contract"),
+                  "design_ref": design_ref or ("DESIGN.md 4 (%s)" % pid)}
+
+
+_P("C01", "proof",
+   "Lifecycle as contracts on the real mod.c/ctx.c: start(), stop(), optional_hook(), mod_deregister(), evaluate_module() and the four public setters are each enforced against a "
+   "contract giving the only allowed edges (requires on the old state, checked at every call site), the callbacks run (start/stop exactly once where promised, none on pause/resume), "
+   "the ZOMBIE outcome, and the invariant running_modules == #RUNNING through callbacks (focus module + ghost count of the others). Every public entry point is additionally checked, "
+   "per function, to return a negative code and change nothing when called in a wrong state / on a zombie / without context or token (guard units: full symbolic state, all callees "
+   "assert(false)). recv_events() (unbounded loop contract) establishes 'no handler for a module that is not RUNNING'.",
+   not_decided=["termination of m_ctx_loop (liveness)", "modules bound with m_mod_bind (units assume an empty bound list)",
+                "nested start/stop/pause of a module's own state from inside its callbacks beyond what the per-function invariants give",
+                "that m_map_iterate visits every module (covered for the map itself under C05, bounded)"])
+_P("C02", "proof",
+   "Sending: tell_if() is verified on the real ps.c + real mem.c for all recipient states / topic / subscription / pipe-full / auto-free combinations (loop-free, full domain): exactly the "
+   "eligible recipient gets exactly one copy carrying sender, topic, payload pointer and flags, nobody else gets anything, the copy keeps the sender alive, a copy that cannot be "
+   "written is released (not the caller's message). Receiving: flush_pubsub_msgs() is enforced with an unbounded loop contract over a ghost pipe: the pipe is drained, every pending "
+   "message is either handed over (loop stop, module RUNNING; in pipe order, one invocation) or released exactly once. new_evt() accepts subscription-less messages. Guard units: refused "
+   "sends reach nobody.",
+   not_decided=["pipe capacity (kernel constant)", "recipient selection loops tell_subscribers()/fetch_sub() over all modules/subscriptions and regular-expression matching (not under contract)",
+                "payload accounting for auto-free sends to != 1 recipients is a recorded known finding"])
+_P("C03", "proof",
+   "recv_events() is enforced with an unbounded loop contract (any batch size up to 10^6 ready sources): whatever errno the user handlers leave behind, every ready source of the batch is "
+   "consumed and handed to push_evt() exactly once while the module stays RUNNING, the loop is asked to quit only for a genuine polling failure, events of a module paused mid-batch are not "
+   "delivered; push_evt() stores the registration user data; poll_set_new_evt() arms one-shot sources one-shot; the count the loop exit condition reads is proved exact in start()/stop().",
+   not_decided=["that epoll reports what is ready; loop termination", "m_ctx_loop_events/m_ctx_dispatch/loop_start/loop_stop are not under contract in this round (quit-code return path)",
+                "one-shot removal branch of recv_events (unit assumes a non-one-shot fd source)", "sources destroyed by a stop/deregister in the same poll batch (dangling epoll data pointer)"])
+_P("C04", "proof",
+   "Memory safety rides on every unit: each function under contract is checked with pointer, bounds, overflow and free-precondition checks under its representation invariant / contract "
+   "precondition (all obligations of all units count here). Lifetime: reference balance obligations (module pinned during callbacks and deregistration, in-flight message keeps its sender, "
+   "event holds its source, copies/batches/events released exactly once) are tagged clauses of the same contracts.",
+   not_decided=["whole-program ownership (refs == #holders for every object kind) -- only the per-function balance clauses listed in the samples",
+                "dump/logging functions, fuse/kqueue/uring plugins", "a source's uncounted back-pointer to its module; subscription pointer inside an in-flight message after unsubscribe"])
+_P("C06", "proof",
+   "Lock discipline and per-step accounting of the real thpool.c under contracts for the pthread primitives over a ghost lock word (lock/wait havoc every field behind the mutex, so each "
+   "thread's step is proved under arbitrary interference): m_thpool_add/length release the mutex on every path, touch queue and thread list only under it, enqueue exactly one record carrying "
+   "(fn,arg) and signal once; the worker loop (loop contract, unbounded) runs each dequeued record exactly once, outside the mutex, with its argument, releases it once, leaves on WAITCURR "
+   "without touching pending work and on WAITALL only with an empty queue, re-tests the predicate after every wake-up; wait_pool publishes shutdown under the mutex, broadcasts and joins every "
+   "worker (loop contract).",
+   note="Trusted: CBMC; pthread primitives are contracts (ghost lock), the rely/guarantee step from lock discipline to 'each accepted task at most once under every interleaving' is the "
+        "written argument of DESIGN.md 4 (C06), not machine-checked.",
+   not_decided=["interleaving semantics beyond the lock-discipline argument; deadlock freedom / lost wake-ups (liveness)", "m_thpool_new/add_threads/m_thpool_free staged teardown and m_thpool_clear not under contract",
+                "detached pools are a recorded known finding"])
+_P("C07", "proof",
+   "m_ctx() (real), m_ctx_register() and m_ctx_deregister() are enforced against contracts over a ghost thread slot: a second context on a thread is refused with EEXIST and no effect, "
+   "deregistration is refused while looping, an idle context visits its modules while it is still the thread's context, empties the slot and drops its registration reference once; "
+   "mod_deregister() releases a non-persistent idle context exactly when its last module goes; guard units: every context call and m_mod_register on a thread without (visible) context, "
+   "or after finalize, fails without effect.",
+   not_decided=["ctx_new()/ctx_dtor() internals, auto-release at loop stop (loop_stop not under contract)", "that m_map_iterate(ctx_destroy_mods) reaches every module (C05 bounded)"])
+_P("C08", "proof",
+   "Order is preserved by each step, proved per function: tell_if() appends at the tail of the recipient's pipe (one pointer per write), flush_pubsub_msgs() pops the head and appends to the "
+   "delivery queue in that order (loop contract), push_evt() appends at the tail of the accumulation queue and hands over that same queue, unstash moves from the head (bounded); "
+   "the queue itself is FIFO (C12).",
+   note=_CORE_NOTE + " Assumed: the kernel pipe is FIFO for pointer-sized writes.",
+   not_decided=["process_ps() and the poison-pill branch of recv_events() (not under contract this round)", "batching + poison pill interplay (C02 lets batched messages be discarded)"])
+_P("C09", "proof",
+   "All seven source comparators are verified over their full key domains (sign == key order, antisymmetric, transitive, zero iff same key; doubles bit-precise), and a key wrapped for "
+   "lookup compares equal to a stored source with that key for every kind; reset_module() drops subscriptions on stop; guard units: rejected registrations leave no trace.",
+   not_decided=["register_mod_src()/deregister_mod_src()/m_mod_src_len() bodies against the set contract of the BST (C11 is bounded) are not under contract this round",
+                "m_mod_ps_subscribe in-place update"])
+_P("C13", "proof",
+   "push_evt() is enforced against its strongest postcondition for all (priority flags, internal/batch/token timers, batch size, accumulated count): the handler is invoked exactly when the "
+   "statement says, with exactly the accumulated queue, nothing lost or duplicated; m_mod_set_batch_size sets exactly; reset_module() discards accumulated events and resets batching.",
+   not_decided=["m_mod_set_batch_timeout / priority normalisation in create_src (not under contract this round)", "that the kernel timer fires after the configured time"])
+_P("C14", "proof",
+   "Thread confinement: guard units over every public module call prove that a call from a thread whose context is not the module's (none, hidden or foreign) fails with a permission error and "
+   "changes nothing, and that tell/poisonpill refuse a recipient of another context. Independence: a rebuilt inventory (gcc+nm) of every writable static-lifetime object of the library must "
+   "equal the reviewed allow-list (init-once / never written / pthread_once), so contexts on different threads share no unsynchronised state; per-function frames of the contract units "
+   "mention no static object.",
+   note="Trusted: the allow-list review (each entry says why sharing is harmless); the inventory is a supporting static fact, not a CBMC proof.",
+   not_decided=["races inside libc/kernel; schedule exploration (another family)", "task threads (task_thread) not under contract"])
+_P("C15", "proof",
+   "m_ctx() hides the context from a deny-ctx module exactly while one of its callbacks runs; callbacks are entered with curr_mod == their module and the previous value is restored on exit "
+   "(nesting); guard units: deny-pub / deny-sub calls, publishing on the reserved prefix, context calls while hidden all fail without effect; mod_deregister refuses a persistent module while "
+   "its context loops.",
+   not_decided=["name uniqueness / allow-replace path of m_mod_register (not under contract this round)"])
+_P("C16", "other",
+   "m_mod_stash() is enforced against its contract (RUNNING only, never HIGH priority -- for every flag word --, exactly one reference and one append at the tail); reset_module() discards the "
+   "stash on stop; m_mod_unstash() is a BOUNDED stand-in: real evts.c + real queue.c, every stash of <= K events and every n: exactly min(n, stashed) oldest events, in order, one "
+   "invocation, rest stays, reference balance.",
+   not_decided=["m_mod_unstash for more than K stashed events (its loop contract exists but CBMC did not finish on it)"],
+   explanation="contract-based; unbounded for stash/reset, bounded (K=4/8 stashed events, real code) for unstash")
+_P("C17", "proof",
+   "m_mod_become/unbecome (push exactly this handler / pop exactly the top, RUNNING only, token), call_pubsub_cb (exactly one invocation of the handler that was on top when the delivery "
+   "started, else the registration-time one; none for an empty batch) and reset_module (stack emptied on stop) are enforced against their contracts; LIFO of the stack itself is C12.",
+   not_decided=[])
+_P("C18", "proof",
+   "Every rate-limited entry point fails with EAGAIN and changes nothing when no token is left (guard units + setter contracts), a success consumes exactly one token, push_evt() refills one "
+   "token per tick of the internal refill timer capped at burst and nothing else touches the bucket, reset_module() removes the limit on stop.",
+   not_decided=["the relation between refill ticks and seconds (real time), hence the literal bound b + r*t (the refill period is floor(10^9/r) ns, so ticks/s >= r)"])
+_P("C19", "proof",
+   "Emission points as contract clauses: start() emits exactly one MOD_STARTED naming the module on an accepted start/resume and none on a refused one, stop()/pause/deregistration exactly one "
+   "MOD_STOPPED (a deregistration nested in the stop callback emits its own), no other notification from these functions.",
+   not_decided=["CTX_STARTED/CTX_STOPPED/TICK emission in loop_start/loop_stop/process_tick (not under contract this round)", "delivery of notifications follows C02", "tick period"])
+_P("C20", "proof",
+   "Over a ghost descriptor owner: poll_set_new_evt() (real epoll.c + cmn_linux.c) makes one library descriptor on registration of timer/signal/path/task/threshold sources and closes exactly "
+   "that one, once, on removal, never a user descriptor; src_priv_dtor() leaves the poll set and closes the library descriptor whatever state the module is in, closes a user descriptor exactly "
+   "when auto-close was asked; reset_module() closes the pipe write end once; close() is only ever called on an open descriptor the caller owns.",
+   not_decided=["pid sources (descriptor made through variadic syscall())", "_pipe/init_pubsub_fd/create_src(DUP)/poll_create/poll_destroy/m_ctx_fd not under contract this round",
+                "whole-program 'all closed at the end' follows from per-object ownership only by argument"])
+U("mod.set_tokenbucket", src="units/mod_unit.c", harness="h_set_tokenbucket", enforce="m_mod_set_tokenbucket", defines=["V_TB_UNIT"],
+  replace=["m_ctx", "m_mod_is", "m_mod_src_deregister_tmr", "m_mod_src_register_tmr"], logctx="CORE",
+  props=["C18", "C14", "C04"], contract_files=MODC, native=False, timeout=150, min_obligations=20)
+LOOPC = ABS + ["contracts/loop.contracts.h"]
+U("ctx.loop_start", src="units/ctx_unit.c", harness="h_loop_start", enforce="loop_start", defines=["V_LOOPSTART_UNIT"], logctx="CORE",
+  replace=["poll_init", "fs_start", "fetch_ms", "m_map_iterate", "tell_system_pubsub_msg", "poll_set_new_evt"],
+  props=["C19", "C01", "C03", "C04"], contract_files=LOOPC, native=False, timeout=300, min_obligations=20)
+U("ctx.loop_stop", src="units/ctx_unit.c", harness="h_loop_stop", enforce="loop_stop", defines=["V_LOOPSTOP_UNIT"], logctx="CORE",
+  replace=["tell_system_pubsub_msg", "m_map_iterate", "fs_stop", "poll_set_new_evt", "poll_clear", "m_thpool_free", "m_map_len", "m_ctx_deregister"],
+  props=["C19", "C03", "C02", "C07", "C04"], contract_files=LOOPC, native=False, timeout=300, min_obligations=20)
+U("ctx.process_tick", src="units/ctx_unit.c", harness="h_process_tick", enforce="process_tick", defines=["V_TICK_UNIT"], logctx="CORE",
+  replace=["poll_consume_tmr", "tell_system_pubsub_msg"], props=["C19", "C04"], contract_files=LOOPC, native=False, timeout=300, min_obligations=10)
